@@ -102,7 +102,7 @@ func genC19(r *kit.RNG) *C19Scenario {
 	// (198.51.7.7/16 and 198.51.0.9/24 share the network address 198.51.0.0)
 	subnets4 := []string{"198.51.100.77", "198.51.100.200", "198.51.101.1", "198.51.7.7", "203.0.113.5", "198.51.0.9"}
 	subnets6 := []string{"2001:db8:1:2:3:4:5:6", "2001:db8:1:2::9", "2001:db8:ffff::1", "2001:db8:1::7"}
-	names := []string{"www.geo.test.", "www.geo.test.", "cdn.geo.test.", "nx.geo.test.", "plain.geo.test."}
+	names := []string{"www.geo.test.", "www.geo.test.", "cdn.geo.test.", "nx.geo.test.", "plain.geo.test.", "none.geo.test." /* tailored NODATA */}
 	n := r.Range(5, 22)
 	for i := 0; i < n; i++ {
 		op := C19Op{Client: kit.Pick(r, clients), Name: kit.Pick(r, names), Type: uint16(kit.Pick(r, []int{16, 16, 16, 1})), CD: r.Chance(0.08),
@@ -134,7 +134,7 @@ func c19Spec(sc *C19Scenario) *world.Spec {
 		{Name: ".", Signed: sc.Signed, Alg: alg, KeyIdx: 0, NSNames: []string{"a.root-servers.net."}, Addrs: []string{"198.41.0.4"}, Records: []string{"a.root-servers.net. 518400 IN A 198.41.0.4"}},
 		{Name: "test.", Signed: sc.Signed, Alg: alg, KeyIdx: 1, Secure: true, NSNames: []string{"ns.test."}, Addrs: []string{"192.0.2.10"}, Records: []string{"ns.test. 3600 IN A 192.0.2.10"}},
 		{Name: "geo.test.", Signed: sc.Signed, Alg: alg, KeyIdx: 2, Secure: true, NSNames: []string{"ns1.geo.test."}, Addrs: []string{"192.0.2.20"}, SOAMin: 30,
-			Records: []string{"ns1.geo.test. 3600 IN A 192.0.2.20", fmt.Sprintf("plain.geo.test. %d IN TXT \"aud=global scope=0 serial=0\"", sc.TTL), fmt.Sprintf("plain.geo.test. %d IN A 10.7.7.7", sc.TTL)}},
+			Records: []string{"ns1.geo.test. 3600 IN A 192.0.2.20", fmt.Sprintf("plain.geo.test. %d IN TXT \"aud=global scope=0 serial=0\"", sc.TTL), fmt.Sprintf("plain.geo.test. %d IN A 10.7.7.7", sc.TTL), "none.geo.test. 300 IN A 10.7.7.8"}},
 	}
 	sp.Cfg.DNSSECOff = !sc.Signed
 	sp.Cfg.Prefetch = sc.Prefetch
@@ -321,6 +321,7 @@ func execC19(sc *C19Scenario, tr *kit.Trace, res *kit.Result) {
 	var ups []c19Up
 	serial := 0
 	serialAt := map[int]time.Duration{}
+	denialTag := map[uint32]string{} // SOA serial of a tailored "no data" reply -> audience tag
 	geo := w.World.Zones["geo.test."]
 	w.Hook = func(addr netip.Addr, q *simnet.Query, honest *authsim.Answer) []simnet.Reply {
 		u := c19Up{at: w.Now(), name: dns.CanonicalName(q.Msg.Question[0].Name), toGeo: honest.Zone == geo}
@@ -340,7 +341,8 @@ func execC19(sc *C19Scenario, tr *kit.Trace, res *kit.Result) {
 			return nil
 		}
 		qn := u.name
-		if qn != "www.geo.test." && qn != "cdn.geo.test." {
+		denial := qn == "none.geo.test." && !geo.Signed // a tailored "no data" (unsigned zone only: no proof to forge)
+		if qn != "www.geo.test." && qn != "cdn.geo.test." && !denial {
 			return nil // plain / nx names: honest, no ECS in the reply
 		}
 		if q.Msg.Question[0].Qtype != dns.TypeTXT {
@@ -388,6 +390,13 @@ func execC19(sc *C19Scenario, tr *kit.Trace, res *kit.Result) {
 				ro = m.IsEdns0()
 			}
 			ro.Option = append(ro.Option, &dns.EDNS0_SUBNET{Code: dns.EDNS0SUBNET, Family: u.ecs.Family, SourceNetmask: u.ecs.SourceNetmask, SourceScope: uint8(scope), Address: u.ecs.Address})
+		}
+		if denial {
+			// the audience is remembered by the SOA serial the reply carries
+			denialTag[uint32(serial)] = fmt.Sprintf("aud=%s scope=%d serial=%d", aud, scope, serial)
+			m.Ns = []dns.RR{&dns.SOA{Hdr: dns.RR_Header{Name: "geo.test.", Rrtype: dns.TypeSOA, Class: dns.ClassINET, Ttl: 300}, Ns: "ns1.geo.test.", Mbox: "h.geo.test.",
+				Serial: uint32(serial), Refresh: 1, Retry: 1, Expire: 1, Minttl: 300}}
+			return world.PackReply(m, q)
 		}
 		txt := &dns.TXT{Hdr: dns.RR_Header{Name: q.Msg.Question[0].Name, Rrtype: dns.TypeTXT, Class: dns.ClassINET, Ttl: uint32(sc.TTL)},
 			Txt: []string{fmt.Sprintf("aud=%s scope=%d serial=%d", aud, scope, serial)}}
@@ -523,6 +532,14 @@ func execC19(sc *C19Scenario, tr *kit.Trace, res *kit.Result) {
 				tag = t.Txt[0]
 			}
 		}
+		var denialSOA *dns.SOA
+		if tag == "" && dns.CanonicalName(op.Name) == "none.geo.test." && m.Rcode == dns.RcodeSuccess && len(m.Answer) == 0 {
+			for _, rr := range m.Ns {
+				if soa, ok := rr.(*dns.SOA); ok && denialTag[soa.Serial] != "" {
+					tag, denialSOA = denialTag[soa.Serial], soa
+				}
+			}
+		}
 		fromCache := len(newUps) == 0
 		tr.AddAt(start, "%s -> %s tag=%q upstream=%d forwarded=%v", ctx, dns.RcodeToString[m.Rcode], tag, len(newUps), forwarded)
 		tr.Shape(fmt.Sprintf("%v|%v|%v", forwarded, tag != "" && !strings.HasPrefix(tag, "aud=global"), fromCache))
@@ -571,6 +588,10 @@ func execC19(sc *C19Scenario, tr *kit.Trace, res *kit.Result) {
 						res.Fail("C19/scoped-answer-ttl-above-cap", "%s: the scoped answer %q carries TTL %d, the scoped TTL limit is %ds (served from cache: %v)", ctx, tag, rr.Header().Ttl, sc.LimitS, fromCache)
 						return
 					}
+				}
+				if denialSOA != nil && int(denialSOA.Hdr.Ttl) > sc.LimitS {
+					res.Fail("C19/scoped-answer-ttl-above-cap", "%s: the scoped \"no data\" answer (%s) carries SOA TTL %d, the scoped TTL limit is %ds (served from cache: %v)", ctx, tag, denialSOA.Hdr.Ttl, sc.LimitS, fromCache)
+					return
 				}
 				res.Probes["scoped-ttl-within-cap"]++
 			}
